@@ -61,6 +61,7 @@ class Sim:
         self.ephemeral = 40000
         self.next_tag: Any = None
         self.current_owner: Any = None
+        self.harness_fault: Optional[str] = None
         self.iteration_hooks: List[Callable[[], None]] = []
         self.wall_watchers: List[Callable[[], None]] = []
         self.app_reads: List[tuple] = []
@@ -727,6 +728,14 @@ class SimContext:
         CURRENT.sim = sim
         self._shim_prev = be.socket
         be.socket = SocketShim()
+        # a library that opens its own socket.socket(...) and hands it to asyncio would escape the simulation:
+        # make that a harness fault instead of a silently unsimulated run
+        self._real_socket_cls = _real_socket.socket
+
+        def guard(*a, **k):
+            sim.harness_fault = "socket.socket(%s) called directly during a simulated run" % (a,)
+            raise HarnessError(sim.harness_fault)
+        _real_socket.socket = guard
         self.loop.set_exception_handler(self._on_loop_exception)
         self._patch_reader()
         return self
@@ -772,6 +781,8 @@ class SimContext:
     def __exit__(self, *exc):
         import asyncio.base_events as be
         be.socket = self._shim_prev
+        if getattr(self, "_real_socket_cls", None) is not None:
+            _real_socket.socket = self._real_socket_cls
         self._unpatch_reader()
         CURRENT.sim = None
         try:
